@@ -24,7 +24,7 @@ fn total(prop: &str, tier: &str) -> u64 {
 }
 
 /// run-time operator tables (operands hidden from constant folding behind toInt)
-fn operator_table(rng: &mut Rng) -> Project {
+pub fn operator_table(rng: &mut Rng) -> Project {
   let pool: [i64; 25] = [0, 1, -1, 2, -2, 3, 7, -7, 10, -10, 255, 1024, -1024, 46341, 1073741823, -1073741824, 1073741824, -1073741825, 2147483647, -2147483648, 65536, -65536, 32767, -46341, 536870912];
   // half of the tables use literal operands (constant folding, literal lowering paths), the other
   // half hide them from the optimizer behind toInt
@@ -51,6 +51,19 @@ fn operator_table(rng: &mut Rng) -> Project {
     if literal {
       // literals written directly at the use sites (element boxing decided at compile time)
       body.push_str(&format!("    let w{k} = Vec.of({a});\n    w{k}.push({b});\n    w{k}.set(0, {b});\n    Process.println(\"lit vec \" :: Str.fromInt(w{k}.get(0)) :: \",\" :: Str.fromInt(w{k}.get(1)) :: \" \" :: Main.b({a} < {b}) :: Main.b({a} == {b}));\n"));
+    }
+    // comparisons of a constant with `variable + constant` (the optimizer moves constants across
+    // the comparison); only when nothing overflows at source level
+    for (tname, tval) in [("tc", 7i64), ("th", -3i64)] {
+      if (b + tval).abs() < (1i64 << 31) - 1 && a.abs() < (1i64 << 31) - 1 {
+        let tdef = if tname == "tc" { format!("{{ let t = {tval}; t }}") } else { format!("Str.fromInt({tval}).toInt()") };
+        let mut line = format!("    Process.println(\"cmpc {a} {b} {tname} \"");
+        for op in ["<", "<=", ">", ">=", "==", "!="] {
+          line.push_str(&format!(" :: Main.b(({a}) {op} ({tdef} + ({b}))) :: Main.b(({tdef} + ({b})) {op} ({a}))"));
+        }
+        line.push_str(");\n");
+        body.push_str(&line);
+      }
     }
     // the same elements once written as literals and once arriving as run-time values: every Vec
     // operation must treat them alike (boxing of elements is decided in two different places)
